@@ -251,8 +251,8 @@ Definition api_dims (fx : bool) (a : carray) : Z * Z :=
   (acc_g_type_info_get_array_length hl (Z.of_N d), acc_g_type_info_get_array_fixed_size hs (Z.of_N d)).
 
 Lemma array_dimensions a :
-  api_dims true a = ((if ka_has_len a then Z.of_N (ka_len a) else -1),
-                     (if ka_has_size a && negb (ka_has_len a) then Z.of_N (ka_size a) else -1)).
+  api_dims true a = ((if ka_has_len a then Z.of_N (ka_len a mod 65536) else -1),
+                     (if ka_has_size a && negb (ka_has_len a) then Z.of_N (ka_size a mod 65536) else -1)).
 Proof.
   unfold api_dims, blob_carray, acc_g_type_info_get_array_length, acc_g_type_info_get_array_fixed_size.
   destruct (ka_has_len a), (ka_has_size a); reflexivity.
@@ -264,3 +264,8 @@ Proof.
   exists {| ka_elem := []; ka_has_len := true; ka_len := 1; ka_has_size := true; ka_size := 4; ka_zero := false; ka_ptr := true |}.
   repeat split; discriminate.
 Qed.
+
+Lemma array_dimensions_exact a : (ka_len a < 65536)%N -> (ka_size a < 65536)%N ->
+  api_dims true a = ((if ka_has_len a then Z.of_N (ka_len a) else -1),
+                     (if ka_has_size a && negb (ka_has_len a) then Z.of_N (ka_size a) else -1)).
+Proof. intros Hl Hs. rewrite array_dimensions, !N.mod_small by assumption. reflexivity. Qed.
